@@ -67,8 +67,10 @@ def check_pair(t1, t2, recursive):
     e1, e2 = vfs.visible(t1, recursive), vfs.visible(t2, recursive)
     F = lambda r: vfs.full(r, root)  # noqa: E731
     # snapshot content (C10 re-checks this under faults; here it is the precondition of the rest)
-    if s1.paths != {F(r) for r in e1} or s2.paths != {F(r) for r in e2}:
-        raise Violation(f"snapshot paths differ from the tree: {sorted(s1.paths)} vs {sorted(e1)}", "snapshot-content")
+    for snap, ent in ((s1, e1), (s2, e2)):
+        msg = vfs.snapshot_content_error(snap, ent, root)
+        if msg:
+            raise Violation(msg, "snapshot-content")
 
     d = DirectorySnapshotDiff(s1, s2)
     L = _lists(d)
